@@ -154,6 +154,22 @@ def solo(seed, script):
     return out
 
 
+_HELPER = None
+
+
+def other_process_solo(seed, script):
+    """The same script run solo in another interpreter whose hash randomisation differs from ours."""
+    global _HELPER
+    import json, os, subprocess, sys
+    if _HELPER is None or _HELPER.poll() is not None:
+        env = dict(os.environ, PYTHONHASHSEED="31337", PYTHONWARNINGS="ignore")
+        _HELPER = subprocess.Popen([sys.executable, os.path.join(os.path.dirname(os.path.abspath(__file__)), "c05_helper.py")],
+                                   stdin=subprocess.PIPE, stdout=subprocess.PIPE, text=True, env=env)
+    _HELPER.stdin.write(json.dumps({"seed": seed, "script": script}) + "\n")
+    _HELPER.stdin.flush()
+    return json.loads(_HELPER.stdout.readline())
+
+
 class C05:
     prop = "C05"
     level = "exploration"
@@ -170,7 +186,8 @@ class C05:
                    "bounds of ordinary magnitude as in the property's quantifier", "None seeds (time-seeded by design) are excluded",
                    "a pickled CobaRandom restarts from its seed by design (__reduce__); not treated as interference with the original"]
     real_components = ["coba.random.CobaRandom", "coba.random module-level functions and _random"]
-    stub_components = ["callers / interference (harness tasks)", "process boundary (per-pid virtualisation of coba.random._random)"]
+    stub_components = ["callers / interference (harness tasks)", "process boundary (per-pid virtualisation of coba.random._random; for str seeds "
+                       "and a sample of the others additionally a real second interpreter with a different PYTHONHASHSEED)"]
 
     def gen(self, rng, tier, index):
         callers = []
@@ -257,6 +274,14 @@ class C05:
         for i, c in enumerate(cfg["callers"]):
             want = solo(c["seed"], c["script"])
             got = observed[i]
+            if isinstance(c["seed"], str) or (i == 0 and seed % 16 == 0):
+                import json
+                res["counters"]["fault.other_interpreter_other_hash_seed"] = res["counters"].get("fault.other_interpreter_other_hash_seed", 0) + 1
+                far = other_process_solo(c["seed"], c["script"])
+                if far != json.loads(json.dumps(want)):
+                    j = next((k for k, (a, b) in enumerate(zip(far, json.loads(json.dumps(want)))) if a != b), 0)
+                    vios.setdefault("proc", vio("stream_depends_on_process", f"CobaRandom({c['seed']!r}) call #{j} {c['script'][j]}: this interpreter "
+                                                                            f"(PYTHONHASHSEED=0) gives {want[j]!r}, another interpreter (PYTHONHASHSEED=31337) gives {far[j]!r}"))
             if got != want:
                 j = next((k for k, (a, b) in enumerate(zip(got, want)) if a != b), min(len(got), len(want)))
                 vios.setdefault("dep", vio("stream_depends_on_environment",
